@@ -77,6 +77,9 @@ pub struct GatedStore {
     pub filter: GateFilter,
     /// rolling hash of every response this node has received (part of the node's state fingerprint)
     pub resp_hash: std::sync::atomic::AtomicU64,
+    /// one-shot injected failures for sequential harnesses: the next request of `kind` whose path contains the
+    /// substring gets the decision
+    pub inject: Mutex<Vec<(String, String, Decision)>>,
 }
 
 impl GatedStore {
@@ -91,6 +94,7 @@ impl GatedStore {
             log: log.clone(),
             filter: Arc::new(|_, _| true),
             resp_hash: std::sync::atomic::AtomicU64::new(0),
+            inject: Mutex::new(Vec::new()),
         })
     }
     pub fn with_filter(
@@ -107,10 +111,26 @@ impl GatedStore {
             log: log.clone(),
             filter: Arc::new(filter),
             resp_hash: std::sync::atomic::AtomicU64::new(0),
+            inject: Mutex::new(Vec::new()),
         })
     }
 
+    pub fn inject_failure(&self, kind: &str, path_contains: &str, d: Decision) {
+        self.inject.lock().unwrap().push((kind.to_string(), path_contains.to_string(), d));
+    }
+    pub fn pending_injections(&self) -> usize {
+        self.inject.lock().unwrap().len()
+    }
+    pub fn clear_injections(&self) {
+        self.inject.lock().unwrap().clear();
+    }
     async fn gate(&self, kind: &str, path: &str, payload: Option<Bytes>) -> Decision {
+        {
+            let mut inj = self.inject.lock().unwrap();
+            if let Some(i) = inj.iter().position(|(k, p, _)| k == kind && path.contains(p.as_str())) {
+                return inj.remove(i).2;
+            }
+        }
         if (self.filter)(kind, path) {
             self.ctl.gate(&self.node, kind, path, payload).await
         } else {
